@@ -83,20 +83,24 @@ ZipForms   == {"dirs", "stored", "ctlast"}
 \* PLACEMENT (dimension "place"): a part the library knows by a conventional NAME lives under another name -
 \* only the relationship type gives it its role (OPC: part names are the producer's choice). Core properties
 \* under /package/services/metadata/core-properties/<id>.psmdcp is what System.IO.Packaging writes.
-PlaceOrder == <<"core", "app", "numbering", "footnotes", "endnotes", "settings">>
+PlaceOrder == <<"core", "app", "numbering", "footnotes", "endnotes", "settings", "styles">>
 PlaceFrom(k) == CASE k = "core" -> "docProps/core.xml" [] k = "app" -> "docProps/app.xml"
                   [] k = "numbering" -> "word/numbering.xml" [] k = "footnotes" -> "word/footnotes.xml"
                   [] k = "endnotes" -> "word/endnotes.xml" [] k = "settings" -> "word/settings.xml"
+                  [] k = "styles" -> "word/styles.xml"
 PlaceTo(k)   == CASE k = "core" -> "package/services/metadata/core-properties/0a1b2c3d4e5f.psmdcp"
                   [] k = "app" -> "docProps/extended.xml"
                   [] k = "numbering" -> "word/lists/numbering2.xml" [] k = "footnotes" -> "word/footnotes1.xml"
                   [] k = "endnotes" -> "word/notes/endnotes.xml" [] k = "settings" -> "word/settings2.xml"
+                  [] k = "styles" -> "word/styles2.xml"
 \* the raw target as the relationship part of the source spells it (package root resp. word/)
 PlaceTg(k)   == CASE k = "core" -> PlaceTo(k) [] k = "app" -> PlaceTo(k)
                   [] k = "numbering" -> "lists/numbering2.xml" [] k = "footnotes" -> "footnotes1.xml"
                   [] k = "endnotes" -> "notes/endnotes.xml" [] k = "settings" -> "settings2.xml"
+                  [] k = "styles" -> "styles2.xml"
 PlaceVia(k)  == IF k = "core" THEN "default" ELSE "override"
-PlaceExtra(k) == IF k \in {"core", "app"} THEN "docProps" ELSE k
+\* the extra kind(s) that carry the placed part (the styles part belongs to the scheme, not to an extra)
+PlaceExtras(k) == IF k \in {"core", "app"} THEN {"docProps"} ELSE IF k = "styles" THEN {} ELSE {k}
 PkgIds     == {"odFirst", "odLast"}
 ContOrder  == <<"plain", "hyperlink", "smartTag", "ins", "sdt", "fldSimple", "customXml", "hl-ins",
                 "sdt-hl", "st-st", "multiT",
@@ -161,7 +165,7 @@ ExtrasOf(D) == Toggle(IF IsMin(D) THEN {} ELSE BaseExtras, Vals(D, "extra")) \cu
                \cup (IF "t+fnref" \in ContsOf(D) \/ MixinOf(D) = "t+fnref" THEN {"footnotes"} ELSE {})
                \* a byte class needs parts it applies to, a placement the part it places
                \cup (IF Vals(D, "bytes") # {} THEN BytesCarriers ELSE {})
-               \cup {PlaceExtra(k) : k \in Vals(D, "place")}
+               \cup UNION {PlaceExtras(k) : k \in Vals(D, "place")}
 BytesOf(D)  == One(D, "bytes", "typical")
 \* the name a shape gives to the part conventionally called n, and how its relationship spells it
 Placed(D, n) == {k \in Vals(D, "place") : PlaceFrom(k) = n}
@@ -328,7 +332,7 @@ Shaped(D, p) ==
 PartsOf(D) ==
      {MkPart(CTPart, "content-types", "none", ""), MkPart(PkgRels, "pkg-rels", "default", ""),
       MkPart(DocPart, "main", "override", ""), MkPart(DocRels, "doc-rels", "default", "")}
-  \cup (IF SchemeOf(D) = "noStyles" THEN {} ELSE {MkPart(StylesPart, "styles", "override", "")})
+  \cup (IF SchemeOf(D) = "noStyles" THEN {} ELSE {Shaped(D, MkPart(StylesPart, "styles", "override", ""))})
   \cup {Shaped(D, p) : p \in UNION {KParts(k) : k \in ExtrasOf(D)}}
   \cup {MkPart("word/media/" \o nm, "media", IF HasExt(nm) THEN "default" ELSE "override", MediaCls(nm)) : nm \in MediaOf(D)}
 
@@ -429,6 +433,11 @@ IsParaBlk(bl) == bl.blk \in {"p", "pic", "sdtblk"}
 ParasOf(body) == LET ps == SeqFilter(body, IsParaBlk) IN [i \in 1..Len(ps) |-> BlockToks(ps[i])]
 LooseOf(body) == UNION {BlockToks(body[b]) : b \in {x \in 1..Len(body) : ~IsParaBlk(body[x])}}
 
+\* the part(s) that play a role in package model o: targets of the relationships of the role's type, and
+\* the part under the conventional name
+RoleTargets(o, src, ty) == {r.rt : r \in {x \in o.rels : x.src = src /\ x.ty = ty /\ x.mode = "Internal"}}
+RoleParts(o, src, ty, conv) == {conv} \cup RoleTargets(o, src, ty)
+
 \* ---- the styles part ------------------------------------------------------------
 \* The library keeps word/styles.xml of an opened package verbatim (document.go serializeStyles) and
 \* only EXTENDS it on save (appendMissingStyles): a style the saved body refers to that the part does not
@@ -440,7 +449,7 @@ LooseOf(body) == UNION {BlockToks(body[b]) : b \in {x \in 1..Len(body) : ~IsPara
 \* alone when it has none - C04 demands neither).
 StyleRefs(body) == {body[b].sty : b \in 1..Len(body)} \ {""}
 StylesClaimed(m) == StyleRefs(m.body) \subseteq m.styles.defs
-StylesRegen(m) == IF StylesClaimed(m) THEN {} ELSE {StylesPart}
+StylesRegen(m) == IF StylesClaimed(m) THEN {} ELSE RoleParts(m, DocRels, "od/styles", StylesPart)
 
 \* ---- the machine --------------------------------------------------------------
 InitOf(m) == [m |-> m, o |-> m, paras |-> ParasOf(m.body), loose |-> LooseOf(m.body),
@@ -483,13 +492,12 @@ HFParts(m, e) ==
 \* the relationship of the role's type, whatever its name - and/or the part under the conventional name
 \* (which the unchanged library writes). The RELATIONSHIPS stay claimed: a writer that re-targets the
 \* role's relationship to its own conventional name breaks C04 (Lossy_Conventional).
-RoleTargets(o, src, ty) == {r.rt : r \in {x \in o.rels : x.src = src /\ x.ty = ty /\ x.mode = "Internal"}}
-RoleParts(o, src, ty, conv) == {conv} \cup RoleTargets(o, src, ty)
 \* the roles the library knows by name: <<source, relationship type, conventional part name>>
 Roles == {<<PkgRels, "pk/metadata/core-properties", "docProps/core.xml">>,
           <<PkgRels, "od/extended-properties", "docProps/app.xml">>,
           <<DocRels, "od/numbering", "word/numbering.xml">>, <<DocRels, "od/footnotes", "word/footnotes.xml">>,
-          <<DocRels, "od/endnotes", "word/endnotes.xml">>, <<DocRels, "od/settings", "word/settings.xml">>}
+          <<DocRels, "od/endnotes", "word/endnotes.xml">>, <<DocRels, "od/settings", "word/settings.xml">>,
+          <<DocRels, "od/styles", StylesPart>>}
 Touches(o, e) ==
   CASE e.op \in HFOps            -> HFParts(o, e)   \* the replaced definition of that kind in the opened package, if any
     [] e.op = "AddListItem"       -> RoleParts(o, DocRels, "od/numbering", "word/numbering.xml")
@@ -499,7 +507,7 @@ Touches(o, e) ==
     [] e.op \in PropOps           -> RoleParts(o, PkgRels, "pk/metadata/core-properties", "docProps/core.xml")
                                      \cup RoleParts(o, PkgRels, "od/extended-properties", "docProps/app.xml")
     \* the new paragraph refers to Heading1: the part is extended unless it defines that id already
-    [] e.op = "AddHeading"        -> IF "Heading1" \in o.styles.defs THEN {} ELSE {StylesPart}
+    [] e.op = "AddHeading"        -> IF "Heading1" \in o.styles.defs THEN {} ELSE RoleParts(o, DocRels, "od/styles", StylesPart)
     [] OTHER                      -> {}
 
 \* relationships an edit replaces by design: AddHeader/AddFooter of kind t replaces the section's
